@@ -774,6 +774,11 @@ class FuncVisitor:
     def v_Call(self, n):
         fn = n.func
         handled = False
+        if (isinstance(fn, ast.Call) and isinstance(fn.func, ast.Name) and fn.func.id == "getattr" and len(fn.args) >= 2
+                and isinstance(fn.args[1], ast.Constant) and isinstance(fn.args[1].value, str)):
+            # getattr(x, "name")(...)  ==  x.name(...)
+            fn = ast.copy_location(ast.Attribute(value=fn.args[0], attr=fn.args[1].value, ctx=ast.Load()), fn)
+            n = ast.copy_location(ast.Call(func=fn, args=n.args, keywords=n.keywords), n)
         leaf = fn.attr if isinstance(fn, ast.Attribute) else fn.id if isinstance(fn, ast.Name) else None
         if leaf:
             self.f.calls.setdefault(leaf, []).append(n)
